@@ -292,3 +292,83 @@ pub fn scripted_run_proc_seq(sh: &mut Shell, line: &str) -> Option<CommandResult
 pub fn run_script_text(sh: &mut Shell, text: &str, args: &Vec<String>) -> Vec<i32> {
     crate::scripting::run_lines(sh, text, args, false).iter().map(|c| c.status).collect()
 }
+
+// ---------------------------------------------------------------- job control
+
+use crate::types::WaitStatus;
+
+thread_local! {
+    static WAIT_EVENTS: RefCell<Option<std::collections::VecDeque<WaitStatus>>> = RefCell::new(None);
+}
+
+/// install (or clear) a scripted queue of kernel notifications for `jobc::waitpidx`
+pub fn set_wait_events(evs: Option<Vec<WaitStatus>>) {
+    WAIT_EVENTS.with(|q| *q.borrow_mut() = evs.map(|v| v.into_iter().collect()));
+}
+
+pub fn push_wait_event(ev: WaitStatus) {
+    WAIT_EVENTS.with(|q| {
+        if let Some(q) = q.borrow_mut().as_mut() {
+            q.push_back(ev);
+        }
+    });
+}
+
+/// the notifications not consumed so far (and empty the queue)
+pub fn drain_wait_events() -> Vec<WaitStatus> {
+    WAIT_EVENTS.with(|q| match q.borrow_mut().as_mut() {
+        Some(q) => q.drain(..).collect(),
+        None => vec![],
+    })
+}
+
+/// Called first thing in `jobc::waitpidx`. `None` = no queue installed.
+/// An empty queue answers ECHILD (blocking) / StillAlive (non-blocking).
+pub fn next_wait_event(_wpid: i32, block: bool) -> Option<WaitStatus> {
+    WAIT_EVENTS.with(|q| {
+        let mut q = q.borrow_mut();
+        let q = q.as_mut()?;
+        Some(match q.pop_front() {
+            Some(ev) => ev,
+            None => {
+                if block {
+                    WaitStatus::from_error(libc::ECHILD)
+                } else {
+                    WaitStatus::empty()
+                }
+            }
+        })
+    })
+}
+
+pub fn ws_exited(pid: i32, status: i32) -> WaitStatus { WaitStatus::from_exited(pid, status) }
+pub fn ws_signaled(pid: i32, sig: i32) -> WaitStatus { WaitStatus::from_signaled(pid, sig) }
+pub fn ws_stopped(pid: i32, sig: i32) -> WaitStatus { WaitStatus::from_stopped(pid, sig) }
+pub fn ws_continued(pid: i32) -> WaitStatus { WaitStatus::from_continuted(pid) }
+
+/// what `signals::handle_sigchld` does with one notification (its four insert calls)
+pub fn park_event(ev: &WaitStatus) {
+    if ev.is_exited() {
+        crate::signals::insert_reap_map(ev.get_pid(), ev.get_status());
+    } else if ev.is_stopped() {
+        crate::signals::insert_stopped_map(ev.get_pid());
+    } else if ev.is_continued() {
+        crate::signals::insert_cont_map(ev.get_pid());
+    } else if ev.is_signaled() {
+        crate::signals::killed_map_insert(ev.get_pid(), ev.get_signal());
+    }
+}
+
+pub fn wait_fg_job(sh: &mut Shell, gid: i32, pids: &[i32]) -> CommandResult { crate::jobc::wait_fg_job(sh, gid, pids) }
+pub fn try_wait_bg_jobs(sh: &mut Shell) { crate::jobc::try_wait_bg_jobs(sh, false, true) }
+
+/// (id, gid, pids, stopped pids sorted, status, is_bg) sorted by id
+pub fn job_table(sh: &Shell) -> Vec<(i32, i32, Vec<i32>, Vec<i32>, String, bool)> {
+    let mut v: Vec<_> = sh.jobs.values().map(|j| {
+        let mut st: Vec<i32> = j.pids_stopped.iter().cloned().collect();
+        st.sort();
+        (j.id, j.gid, j.pids.clone(), st, j.status.clone(), j.is_bg)
+    }).collect();
+    v.sort();
+    v
+}
